@@ -27,7 +27,8 @@
      mutate(s,i,v)       change the tag of the i-th layer of slot s's chain to v
      pwrap(s,p)          packet slot p = Packet(deref s)                 (deep copy)         pown(s,p): Packet(s, own_pdu) takes s
      pcopy(p,q)  pmove(p,q)  prelease(p,t)  pdrop(p)                packet slots always hold a Packet object, possibly
-                         EMPTY (no layers): q = p makes q a deep copy of p -- empty if p is empty; what q held is destroyed
+                         EMPTY (no layers): q = p makes q a deep copy of p -- empty if p is empty; what q held is destroyed;
+                         p = p and p = std::move(p) (self-assignment) are programs too
    Invariants (checked by TLC over all programs of bounded length; validated on the real code step by step):
      Forest      every live object is reachable from exactly one user/packet root, parent[inner[o]] = o by construction
      DeepCopy    copies are disjoint from their source and equal to it at the time of copying (action property
@@ -78,7 +79,7 @@ Enabled(st, op) ==
       [] op.op = "delete"      -> Has(st, op.a)
       [] op.op = "mutate"      -> Has(st, op.a) /\ op.b <= Len(ChainOf(st, Root(st, op.a))) /\ op.b >= 1
       [] op.op \in {"pwrap", "pown"} -> Has(st, op.a)
-      [] op.op \in {"pcopy", "pmove"} -> op.a # op.b          \* the source wrapper may be empty
+      [] op.op \in {"pcopy", "pmove"} -> TRUE                 \* the source wrapper may be empty; a = b is self-assignment
       [] op.op = "prelease"    -> PHas(st, op.a) /\ ~Has(st, op.b)
       [] op.op = "pdrop"       -> PHas(st, op.a)
       [] OTHER -> FALSE
@@ -113,6 +114,7 @@ Apply(st, op) ==
       [] op.op = "pwrap" -> LET r == CopyChain(st, ra)
                                 s2 == Destroy(r[1], st.pslots[op.b]) IN [s2 EXCEPT !.pslots[op.b] = r[2]]
       [] op.op = "pown" -> [Destroy(st, st.pslots[op.b]) EXCEPT !.pslots[op.b] = ra, !.slots[op.a] = NULL]
+      [] op.op \in {"pcopy", "pmove"} /\ op.a = op.b -> st       \* p = p and p = std::move(p) leave p as it is (see Outcomes)
       [] op.op = "pcopy" -> LET r == CopyChain(st, st.pslots[op.a])
                                 s2 == Destroy(r[1], st.pslots[op.b]) IN [s2 EXCEPT !.pslots[op.b] = r[2]]
       [] op.op = "pmove" -> LET s2 == Destroy(st, st.pslots[op.b]) IN [s2 EXCEPT !.pslots[op.b] = st.pslots[op.a], !.pslots[op.a] = NULL]
@@ -123,7 +125,9 @@ Apply(st, op) ==
    (its content went to the target and the target's old content was destroyed), or it may now own what the target
    held before (a swap) -- ownership is sound either way, and C12 does not choose. *)
 Outcomes(st, op) ==
-    IF op.op = "pmove"
+    IF op.op = "pmove" /\ op.a = op.b
+    THEN {st, [Destroy(st, st.pslots[op.a]) EXCEPT !.pslots[op.a] = NULL]}     \* self-move: unchanged, or emptied - never dangling
+    ELSE IF op.op = "pmove"
     THEN {Apply(st, op), [st EXCEPT !.pslots[op.b] = st.pslots[op.a], !.pslots[op.a] = st.pslots[op.b]]}
     ELSE {Apply(st, op)}
 
